@@ -24,19 +24,21 @@ Dom == 0..2                               \* candidate values of a query variabl
 Supplied == (1..np) \cup kw
 WellFormed == /\ n \in 1..3 /\ ndef \in 0..n /\ np \in 0..n
               /\ kw \subseteq ((np + 1)..n)
-              /\ \A i \in 1..(n - ndef) : i \in Supplied          \* required parameters are passed
+              /\ \A i \in 1..(IF style = "varkw" THEN 1 ELSE n - ndef) : i \in Supplied          \* required parameters are passed
               /\ vars \subseteq Supplied
               \* signature styles beyond (arity, defaults), concrete calls only: all parameters positional-only  def f(p1.., /),
               \* or one parameter and a var-positional rest  def f(p1, *rest, **options)  called with n positional arguments
               /\ style = "posonly" => kw = {} /\ vars = {}
               /\ style = "varargs" => ndef = 0 /\ kw = {} /\ np = n /\ vars = {}
+              \* def f(p1, **options): p2, p3 travel as extra keywords through **options (absent = 0); concrete and symbolic calls
+              /\ style = "varkw" => ndef = 0 /\ np <= 1 /\ n >= 2 /\ (\E i \in kw : i >= 2)
 Init == /\ n \in 1..3 /\ ndef \in 0..3 /\ np \in 0..3 /\ kw \in SUBSET (1..3) /\ vars \in SUBSET (1..3)
-        /\ style \in {"plain", "posonly", "varargs"} /\ WellFormed
+        /\ style \in {"plain", "posonly", "varargs", "varkw"} /\ WellFormed
 Next == FALSE /\ UNCHANGED st
 Spec == Init /\ [][Next]_st
 Symbolic == vars # {}
 \* reference binding: parameter i receives the i-th positional argument, or the keyword argument named p_i, or its default
-ParamVal(i, asg) == IF i \in vars THEN asg[i] ELSE IF i \in Supplied THEN Concrete(i) ELSE Default(i)
+ParamVal(i, asg) == IF i \in vars THEN asg[i] ELSE IF i \in Supplied THEN Concrete(i) ELSE IF style = "varkw" THEN 0 ELSE Default(i)
 Body(asg) == LET v(i) == IF i <= n THEN ParamVal(i, asg) ELSE 0 IN (v(1) + 2 * v(2) + 3 * v(3)) % 3 # 0
 Asgs == [vars -> Dom]
 \* layer I: which parameter the j-th positional argument lands on
